@@ -162,6 +162,7 @@ def run(pid: str, tier: str, families=None, extra_requests=None, worker=None, va
     generated = set()
     samples = []
     n_viol = 0
+    inconclusive = []
     rotating_cut = []
     unreplayed = []
     stmts = reached = 0
@@ -186,7 +187,11 @@ def run(pid: str, tier: str, families=None, extra_requests=None, worker=None, va
         if fl.get("grew"):
             grew_requests.add(key)
         if st == "harness-error":
-            rep.harness_error(f"{key} dims={r['dimvec']}: {r.get('error', '')[:300]}")
+            if tier != "quick" and "solver unknown" in r.get("error", ""):
+                # thorough tier: a solver timeout makes this task inconclusive (listed, outside the claim)
+                inconclusive.append({"request": key, "dimvec": r["dimvec"], "why": r.get("error", "")[:120]})
+            else:
+                rep.harness_error(f"{key} dims={r['dimvec']}: {r.get('error', '')[:300]}")
         elif st == "budget":
             entry = {"request": key, "dimvec": r["dimvec"], "why": r.get("error")}
             if key in rotating:
@@ -247,7 +252,7 @@ def run(pid: str, tier: str, families=None, extra_requests=None, worker=None, va
         "ir_statements": stmts,
         "ir_statements_reached": reached,
         "requests_with_growth_path": len(grew_requests),
-        "budget_exceeded": budget, "rotating_requests": sorted(rotating),
+        "budget_exceeded": budget, "inconclusive_tasks_solver_timeout": inconclusive, "rotating_requests": sorted(rotating),
         "rotating_requests_cut_by_budget": rotating_cut,
         "symbolic_dimension_tasks": sum(1 for t in tasks if t.get("symbolic_dimension")),
         "bounds": {"dense_dimension_max": D, "stored_entries_per_compressed_level": N,
